@@ -125,7 +125,15 @@ class _CheckingJacobian(DictionaryJacobian):
         super().__init__(system)
 
     def _setup(self, system):
-        self._subjacs_info = self._subjacs_info.copy()
+        # detach the per-pair metadata and values from the component's own subjacs so that what the
+        # check writes (approximated values, uncovered_nz) never ends up in the component.
+        subjacs_info = {}
+        for key, meta in self._subjacs_info.items():
+            meta = meta.copy()
+            if hasattr(meta.get('val'), 'copy'):
+                meta['val'] = meta['val'].copy()
+            subjacs_info[key] = meta
+        self._subjacs_info = subjacs_info
 
         self._setup_index_maps(system)
         self._subjacs = self._get_subjacs(system)
